@@ -51,7 +51,10 @@ bool FeatureChecker::visitTemplateBefore(template_t& templ)
 
 void FeatureChecker::visitVariable(variable_t& var)
 {
-    if (var.uid.get_type().is_clock() && !var.init.empty() && var.init.uses_fp())
+    type_t type = var.uid.get_type();
+    while (type.is_array())  // arrays of clocks
+        type = type.get_sub();
+    if (type.is_clock() && !var.init.empty() && var.init.uses_fp())
         supported_methods.symbolic = false;
 }
 
